@@ -47,12 +47,13 @@ CONSTANTS TrajOnHit,     \* orbit.propagate assigns _trajectory also when served
 Members == 1 .. N
 
 VARIABLES ctor,    \* how the family was built: "list" | "nan" | "result1" | "result2"
+          nm,      \* the attribute parameter_name (public, assignable): ExpName(ctor) or "renamed"
           L,       \* logical member states   [Members -> [per, prop]]
           I,       \* implementation          [Members -> [per, traj, dyn]]
           saved,   \* <<>> or <<[L, I]>> what the file holds (I without caches)
           last, hist
 
-vars == <<ctor, L, I, saved, last, hist>>
+vars == <<ctor, nm, L, I, saved, last, hist>>
 
 (***************************************************************************)
 (* Parameter values.  OrbitFamily(orbits, name, values) keeps the values;  *)
@@ -79,7 +80,7 @@ Nothing == <<"none">>
 NoHits  == [m \in Members |-> "-"]
 
 Init ==
-    /\ ctor \in Ctors
+    /\ ctor \in Ctors /\ nm = ExpName(ctor)
     /\ L = [m \in Members |-> [per |-> "T", prop |-> ""]]
     /\ I = [m \in Members |-> [per |-> "T", traj |-> <<>>, dyn |-> {}]]
     /\ saved = <<>>
@@ -126,7 +127,7 @@ Propagate(s) ==
     LET r == RunProp(I, s, 1)  l == RunPropL(L, s, 1)
     IN  /\ I' = r.I /\ L' = l.L
         /\ Record("Propagate", <<s>>, IF r.raised THEN Raise ELSE Nothing, IF l.raised THEN Raise ELSE Nothing, r.hits)
-        /\ UNCHANGED <<ctor, saved>>
+        /\ UNCHANGED <<ctor, nm, saved>>
 
 (***************************************************************************)
 (* family.to_df(kwargs) / to_csv(path, kwargs): per member                      *)
@@ -157,24 +158,35 @@ RunDfL(Lf, s, m) ==
 Export(op, s) ==
     LET r == RunDf(I, s, 1)  l == RunDfL(L, s, 1)
     IN  /\ I' = r.I /\ L' = l.L
-        /\ Record(op, <<s>>, IF r.raised THEN Raise ELSE Val(<<"frame", r.rows>>),
-                  IF l.raised THEN Raise ELSE Val(<<"frame", l.rows>>), r.hits)
-        /\ UNCHANGED <<ctor, saved>>
+        \* expv: per member (orbit_id, parameter value, setting of the trajectory exported); every row is
+        \* (orbit_id, parameter value, t, state) of that member's trajectory
+        /\ RecordV(op, <<s>>, IF r.raised THEN Raise ELSE Val(<<"frame", nm, r.rows>>),
+                   IF l.raised THEN Raise ELSE Val(<<"frame", nm, l.rows>>), r.hits,
+                   IF l.raised THEN "" ELSE [members |-> [m \in Members |-> <<m, ExpParams(ctor)[m], l.rows[m][4]>>], rows_match |-> TRUE])
+        /\ UNCHANGED <<ctor, nm, saved>>
 ToDf(s)  == Export("ToDf", s)
 ToCsv(s) == Export("ToCsv", s)        \* the file, read back, holds the same frame
 
 (***************************************************************************)
 (* Reads                                                                   *)
 (***************************************************************************)
-Same == UNCHANGED <<ctor, L, I, saved>>
+Same == UNCHANGED <<ctor, nm, L, I, saved>>
 ReadLen      == RecordV("Len", <<>>, Val(N), Val(N), NoHits, N) /\ Same
-GetItem(m)   == Record("GetItem", <<m>>, Val(<<"member", m, I[m].per>>), Val(<<"member", m, L[m].per>>), NoHits) /\ Same
-Iterate      == Record("Iterate", <<>>, Val([m \in Members |-> <<"member", m, I[m].per>>]),
-                       Val([m \in Members |-> <<"member", m, L[m].per>>]), NoHits) /\ Same
-Periods      == Record("Periods", <<>>, Val([m \in Members |-> I[m].per]), Val([m \in Members |-> L[m].per]), NoHits) /\ Same
-Jacobis      == Record("Jacobis", <<>>, Val(<<"jacobis">>), Val(<<"jacobis">>), NoHits) /\ Same
+\* expv: GetItem / Iterate: which member objects are handed out; Periods: the period versions;
+\* Jacobis: the array is the members' Jacobi constants in member order
+GetItem(m)   == RecordV("GetItem", <<m>>, Val(<<"member", m, I[m].per>>), Val(<<"member", m, L[m].per>>), NoHits, m) /\ Same
+Iterate      == RecordV("Iterate", <<>>, Val([m \in Members |-> <<"member", m, I[m].per>>]),
+                        Val([m \in Members |-> <<"member", m, L[m].per>>]), NoHits, [m \in Members |-> m]) /\ Same
+Periods      == RecordV("Periods", <<>>, Val([m \in Members |-> I[m].per]), Val([m \in Members |-> L[m].per]), NoHits,
+                        [m \in Members |-> L[m].per]) /\ Same
+Jacobis      == RecordV("Jacobis", <<>>, Val(<<"jacobis">>), Val(<<"jacobis">>), NoHits, TRUE) /\ Same
 ParamValues  == RecordV("ParamValues", <<>>, Val(ExpParams(ctor)), Val(ExpParams(ctor)), NoHits, ExpParams(ctor)) /\ Same
-ParamName    == RecordV("ParamName", <<>>, Val(ExpName(ctor)), Val(ExpName(ctor)), NoHits, ExpName(ctor)) /\ Same
+ParamName    == RecordV("ParamName", <<>>, Val(nm), Val(nm), NoHits, nm) /\ Same
+\* family.parameter_name = "renamed"   (a public attribute; the only family-level state an operation changes)
+Rename ==
+    /\ nm' = "renamed"
+    /\ Record("Rename", <<>>, Nothing, Nothing, NoHits)
+    /\ UNCHANGED <<ctor, L, I, saved>>
 
 (***************************************************************************)
 (* Operations on a member reached through the family (family[m]...)        *)
@@ -182,18 +194,18 @@ ParamName    == RecordV("ParamName", <<>>, Val(ExpName(ctor)), Val(ExpName(ctor)
 MemberSetPeriod(m, v) ==
     /\ I' = [I EXCEPT ![m] = ImplSetPeriod(I[m], v)] /\ L' = [L EXCEPT ![m] = LogSetPeriod(L[m], v)]
     /\ Record("MemberSetPeriod", <<m, v>>, Nothing, Nothing, NoHits)
-    /\ UNCHANGED <<ctor, saved>>
+    /\ UNCHANGED <<ctor, nm, saved>>
 MemberPropagate(m, s) ==
     IF I[m].per = "none"
     THEN /\ Record("MemberPropagate", <<m, s>>, Raise, IF L[m].per = "none" THEN Raise ELSE Val(Traj(m, L[m].per, s)), NoHits)
          /\ L' = IF L[m].per = "none" THEN L ELSE [L EXCEPT ![m].prop = s]
-         /\ UNCHANGED <<ctor, I, saved>>
+         /\ UNCHANGED <<ctor, nm, I, saved>>
     ELSE LET r == ImplProp(m, I[m], s)
          IN  /\ I' = [I EXCEPT ![m] = r.i]
              /\ L' = IF L[m].per = "none" THEN L ELSE [L EXCEPT ![m].prop = s]
              /\ Record("MemberPropagate", <<m, s>>, Val(r.v), IF L[m].per = "none" THEN Raise ELSE Val(Traj(m, L[m].per, s)),
                        [j \in Members |-> IF j = m THEN r.hit ELSE "-"])
-             /\ UNCHANGED <<ctor, saved>>
+             /\ UNCHANGED <<ctor, nm, saved>>
 MemberReadTrajectory(m) ==
     /\ Record("MemberReadTrajectory", <<m>>, IF I[m].traj = <<>> THEN Raise ELSE Val(I[m].traj),
               IF L[m].prop = "" THEN Raise ELSE Val(LogTraj(m, L[m])), NoHits)
@@ -209,19 +221,19 @@ MemberReadTrajectory(m) ==
 (* member's services are rebuilt (empty caches).                           *)
 (***************************************************************************)
 Save ==
-    /\ saved' = <<[L |-> L, I |-> [m \in Members |-> [per |-> I[m].per, traj |-> I[m].traj]]]>>
+    /\ saved' = <<[L |-> L, nm |-> nm, I |-> [m \in Members |-> [per |-> I[m].per, traj |-> I[m].traj]]]>>
     /\ Record("Save", <<>>, Nothing, Nothing, NoHits)
-    /\ UNCHANGED <<ctor, L, I>>
+    /\ UNCHANGED <<ctor, nm, L, I>>
 Load(op) ==
     /\ saved # <<>>
     /\ I' = [m \in Members |-> [per |-> saved[1].I[m].per, traj |-> saved[1].I[m].traj, dyn |-> {}]]
-    /\ L' = saved[1].L
+    /\ L' = saved[1].L /\ nm' = saved[1].nm
     /\ Record(op, <<>>, Nothing, Nothing, NoHits)
     /\ UNCHANGED <<ctor, saved>>
 
 Next ==
     \/ \E s \in Props : Propagate(s) \/ ToDf(s) \/ ToCsv(s)
-    \/ ReadLen \/ Iterate \/ Periods \/ Jacobis \/ ParamValues \/ ParamName
+    \/ ReadLen \/ Iterate \/ Periods \/ Jacobis \/ ParamValues \/ ParamName \/ Rename
     \/ \E m \in Members : GetItem(m) \/ MemberReadTrajectory(m)
     \/ \E m \in Members, v \in UserPeriods : MemberSetPeriod(m, v)
     \/ \E m \in Members, s \in Props : MemberPropagate(m, s)
@@ -238,6 +250,7 @@ Do(op, arg) ==
     \/ op = "Jacobis" /\ Jacobis
     \/ op = "ParamValues" /\ ParamValues
     \/ op = "ParamName" /\ ParamName
+    \/ op = "Rename" /\ Rename
     \/ op = "GetItem" /\ GetItem(arg[1])
     \/ op = "MemberReadTrajectory" /\ MemberReadTrajectory(arg[1])
     \/ op = "MemberSetPeriod" /\ MemberSetPeriod(arg[1], arg[2])
@@ -255,7 +268,7 @@ ReturnedIsFresh == last.ret = last.exp
 ImplTracksLogical == \A m \in Members : I[m].per = L[m].per /\ I[m].traj = LogTraj(m, L[m])
 SaveLoadPreservesObservables ==
     (last.op \in {"Load", "LoadInplace"}) =>
-        /\ L = saved[1].L
+        /\ L = saved[1].L /\ nm = saved[1].nm
         /\ \A m \in Members : I[m].per = L[m].per /\ I[m].traj = LogTraj(m, L[m])
 DistinctQuantitiesDistinctKeys == \A s1 \in Props, s2 \in Props : s1 # s2 => PropKey(s1) # PropKey(s2)
 
